@@ -117,7 +117,8 @@ Definition spec_copy (mode : string) (n : node) (v : val) : string :=
 
 Definition pk_tag (n : node) (v : val) : string := ",deq" ++ deq3 n v ++ (if has_ptrkeys n v then ",ptrkeys" else "").
 
-Definition copy_lines (u : string * ty) : list string :=
+(* [vs]: the source values (the main stream: the value variants of the unit) *)
+Definition copy_lines_of (vs : list val) (u : string * ty) : list string :=
   let n := root_node u in
   flat_map (fun iv : nat * val =>
     let '(vi, v) := iv in
@@ -127,12 +128,12 @@ Definition copy_lines (u : string * ty) : list string :=
         "copy," ++ mode ++ ",src-" ++ form ++ "," ++ size_tag v ++ pk_tag n v ++ tab ++
         fst u ++ ";" ++ form ++ ";copy;" ++ mode ++ ";" ++ pr_val true v ++ tab ++
         model_copy mode n form v ++ tab ++ spec_copy mode n v) modes) ["v"; "p"])
-  (combine (seqn (List.length (variants n))) (variants n)).
+  (combine (seqn (List.length vs)) vs).
+Definition copy_lines (u : string * ty) : list string := copy_lines_of (variants (root_node u)) u.
 
-Definition copyto_lines (u : string * ty) : list string :=
+Definition copyto_lines_of (vs : list val) (u : string * ty) : list string :=
   let n := root_node u in
-  let vs := variants n in
-  let dense := last vs (VInt 0) in
+  let dense := last (variants n) (VInt 0) in
   let dsts := [("zero", zero_val n); ("blank", blank_of n dense)] in
   flat_map (fun iv : nat * val =>
     let '(vi, v) := iv in
@@ -149,6 +150,7 @@ Definition copyto_lines (u : string * ty) : list string :=
           model_copyto mode n form d v ++ tab ++ spec_copy mode n v) modes)
       [("nil", (-1)%Z); ("exact", bc); ("over", (bc + 64)%Z)]) dsts)
   (combine (seqn (List.length vs)) vs).
+Definition copyto_lines (u : string * ty) : list string := copyto_lines_of (variants (root_node u)) u.
 
 Definition cases (tier : Z) (seed : Z) : list string :=
   flat_map (fun u => (copy_lines u ++ copyto_lines u)%list) (emit_units tier).
